@@ -16,7 +16,7 @@ REQUIRED_THEOREMS = [
     "Ink.C02.readThread_writeThread", "Ink.C02.readCallStack_ok", "Ink.C02.readChoice_writeChoice",
     "Ink.C02.readFlow_writeFlow", "Ink.C02.loadStateObj_ok", "Ink.C02.loadState_saveState",
     "Ink.C02.loadState_saveState_exact", "Ink.C02.loadState_saveState_self", "Ink.C02.create_saveable",
-    "Ink.C02.saveableB_sound", "Ink.C02.exRoundTrip", "Ink.C02.nonfinite_float_not_loadable",
+    "Ink.C02.saveableB_sound", "Ink.C02.exRoundTrip", "Ink.C02.nonfinite_float_clamped",
 ]
 RULE = ("a case = one story x one save point along a random history (after a line, at a choice point, at the end, "
         "inside tunnels / functions / threads, in a named flow, with lists and random seeds) x one random "
